@@ -202,6 +202,8 @@ theorem stepOp_fp (op : Op) (c c' : Ctl) (p : MItem) (acts : List Act)
   | mapBang all => exact mapStep_fp _ _ _ c c' _ acts h
   | subst pt r n => exact mapStep_fp _ _ _ c c' _ acts h
   | buffer => exact mapStep_fp _ _ _ c c' _ acts h
+  | trace => exact mapStep_fp _ _ _ c c' _ acts h
+  | mapText f => exact mapStep_fp _ _ _ c c' _ acts h
   | empty =>
     cases c <;> simp only [stepOp] at h <;> try simp at h
     rename_i b
@@ -311,6 +313,8 @@ theorem finOp_fp (op : Op) (c : Ctl) (acts : List Act) (h : finOp op c = some ac
   | rename n => simp [finOp] at h; subst h; exact ActsIn.nil _ _
   | attrFn n f => simp [finOp] at h; subst h; exact ActsIn.nil _ _
   | buffer => simp [finOp] at h; subst h; exact ActsIn.nil _ _
+  | trace => simp [finOp] at h; subst h; exact ActsIn.nil _ _
+  | mapText f => simp [finOp] at h; subst h; exact ActsIn.nil _ _
   | mapBang all => simp [finOp] at h; subst h; exact ActsIn.nil _ _
   | subst pt r n => simp [finOp] at h; subst h; exact ActsIn.nil _ _
 
